@@ -21,9 +21,17 @@ theorem generated_cfg_is_std : Generated.C17.cfg = Dump.stdCfg := by decide
 theorem amp_escape_inverse (l : List Bytes) : htmlUnescape ((l.map (ws cfg)).flatten) = l.flatten := by
   rw [show cfg = stdCfg from generated_cfg_is_std]; exact unescape_ws_concat l
 
-/-- …but a text escaped twice (typeName writes type annotations through a nested builder, the result goes
-    through writeString again) is not restored: `&` comes back as `&amp;`. -/
-theorem amp_escape_inverse_twice_not : htmlUnescape (ws cfg (ws cfg [38])) = [38, 97, 109, 112, 59] := by decide
+/-- regression (was: `&` in a type annotation came back as `&amp;`, escaped by typeName's own builder and
+    again by the caller): `typeName` writes its annotations raw, the caller escapes once, the final text of
+    `i32 (a = "&")` is `i32(a = "&")`; and `cpp_type` is written (list: after `>`, map/set: after the keyword). -/
+theorem type_annotation_escaped_once :
+    finish cfg (ws cfg (typeName cfg (.mk [105, 51, 50] none none [] [⟨[97], [[38]]⟩])))
+        = [105, 51, 50, 40, 97, 32, 61, 32, 34, 38, 34, 41]
+    ∧ finish cfg (ws cfg (typeName cfg (.mk [108, 105, 115, 116] none (some (.mk [105, 51, 50] none none [] [])) [97] [])))
+        = [108, 105, 115, 116, 60, 105, 51, 50, 62, 32, 99, 112, 112, 95, 116, 121, 112, 101, 32, 34, 97, 34]
+    ∧ finish cfg (ws cfg (typeName cfg (.mk [115, 101, 116] none (some (.mk [105, 51, 50] none none [] [])) [97] [])))
+        = [115, 101, 116, 32, 99, 112, 112, 95, 116, 121, 112, 101, 32, 34, 97, 34, 60, 105, 51, 50, 62] := by
+  decide
 
 /-- the final text of a DumpSafe literal: `"`, the value with every `"` written `\"`, `"` -/
 theorem dump_literal_text (v : Bytes) (h : DumpSafe v = true) : dumpLiteral cfg v = 34 :: (qEsc v ++ [34]) := by
@@ -80,24 +88,20 @@ example : Sep [44, 32] ∧ Sep [] ∧ Sep [93] ∧ Sep [10] := by simp [Dump.Sep
 
 /-
   numeric_roundtrip (doubles).  `ff`/`pf` stand for strconv.FormatFloat(·,'f',-1,64) / ParseFloat(·,64) on
-  IEEE bit patterns.  Assumed of them (shortest round trip): the text has the shape sign? digits ('.' digits)?
-  with canonical integer part, and `pf (ff b) = b`.  Then:
-  * with a fractional part the text is read as the double `b` again;
-  * without one it is read by IntConstant + ParseInt as the integer the digits denote — an error when that
-    integer does not fit int64 (FALSE round trip, witness below: 2^63 is dumped as 9223372036854776000).
+  IEEE bit patterns.  The writer appends ".0" to FormatFloat's text when it has no '.' (`dblText`).  Assumed
+  (shortest round trip): FormatFloat's text has the shape sign? digits ('.' digits)? with canonical integer
+  part, and ParseFloat of the written text gives the value back.  Then the written text is always read by
+  DoubleConstant as the double `b` again (never as an integer literal).
 -/
-theorem numeric_roundtrip_double (ff : Nat → Bytes) (pf : Bytes → Nat) (b : Nat) (sh : FShape (ff b)) (hrt : pf (ff b) = b)
-    (rest : Bytes) :
-    (sh.fp ≠ [] → SepD rest → readNumber pf (ff b ++ rest) = (.dbl b, rest))
-    ∧ (sh.fp = [] → Sep rest → readNumber pf (ff b ++ rest) =
-        ((if sh.neg then (if decVal sh.ip ≤ 9223372036854775808 then Num.int (-(decVal sh.ip : Int)) else .err)
-          else (if decVal sh.ip < 9223372036854775808 then Num.int (decVal sh.ip) else .err)), rest)) := by
-  refine ⟨fun hne hs => ?_, fun he hs => ?_⟩
-  · rw [readNumber_fshape_frac pf _ sh hne rest hs, hrt]
-  · rw [readNumber_fshape_int pf _ sh he rest hs, parseInt0_canon _ _ sh.ipCanon]
+theorem numeric_roundtrip_double (ff : Nat → Bytes) (pf : Bytes → Nat) (b : Nat) (sh : FShape (ff b))
+    (hrt : pf (dblText (ff b)) = b) (rest : Bytes) (hs : SepD rest) :
+    readNumber pf (dblText (ff b) ++ rest) = (.dbl b, rest) := by
+  rw [readNumber_fshape_frac pf _ (fshapeDbl sh) (fshapeDbl_fp sh) rest hs, hrt]
 
-/-- the integral double 2^63, written `9223372036854776000` by FormatFloat, is rejected on re-reading -/
-example : (readNumber (fun _ => 0) [57, 50, 50, 51, 51, 55, 50, 48, 51, 54, 56, 53, 52, 55, 55, 54, 48, 48, 48]).1 = Num.err := by
+/-- regression (was: the integral double 2^63, written `9223372036854776000`, was rejected on re-reading):
+    the text now written, `9223372036854776000.0`, is read as a double; the bare digits still are an error -/
+example : (readNumber (fun _ => 7) (dblText [57, 50, 50, 51, 51, 55, 50, 48, 51, 54, 56, 53, 52, 55, 55, 54, 48, 48, 48])).1 = Num.dbl 7
+    ∧ (readNumber (fun _ => 7) [57, 50, 50, 51, 51, 55, 50, 48, 51, 54, 56, 53, 52, 55, 55, 54, 48, 48, 48]).1 = Num.err := by
   decide
 
 /-- annotation_roundtrip on the text: the dumped annotation list — `(k = "v", …)`, one pair per value — is
@@ -110,13 +114,13 @@ theorem annotation_text_roundtrip (l : List Ann) (hne : l ≠ []) (hwf : WFAnn l
 
 /-- constvalue_roundtrip: every constant value (all six kinds, nested) whose literals are DumpSafe, whose
     integers fit int64, whose identifiers are identifiers and whose doubles satisfy the FormatFloat/ParseFloat
-    assumptions (`GoodCV`, `SafeCV`) is read back from its dumped text as `reread` of itself — the same value,
-    except that a double written without fractional part comes back as the integer its digits denote. -/
+    assumptions (`GoodCV`, `SafeCV`) is read back from its dumped text as itself. -/
 theorem constvalue_roundtrip (ff : Nat → Bytes) (pf : Bytes → Nat) (cv : CV) (hg : GoodCV ff pf cv) (hs : SafeCV ff cv)
     (rest : Bytes) (ht : Term rest) (f : Nat) (hf : cvSize cv ≤ f) :
-    readCV pf f (dumpCV cfg ff cv ++ rest) = some (reread ff cv, skipIndent rest) := by
+    readCV pf f (dumpCV cfg ff cv ++ rest) = some (cv, skipIndent rest) := by
   rw [show cfg = stdCfg from generated_cfg_is_std, dumpCV_final ff cv hs]
-  exact readCV_final ff pf cv hg rest ht f hf
+  have := readCV_final ff pf cv hg rest ht f hf
+  rwa [reread_id] at this
 
 /-- the hypotheses are satisfiable: `{"a\"b": [1, -2], x.Y: "&amp;"}`-like value -/
 example : GoodCV (fun _ => []) (fun _ => 0) (.map [(.lit [97, 34, 98], .list [.int 1, .int (-2)]), (.ident [120, 46, 89], .lit [38, 97, 109, 112, 59])])
@@ -136,14 +140,14 @@ example : GoodCV (fun _ => []) (fun _ => 0) (.map [(.lit [97, 34, 98], .list [.i
 -/
 /-- dump_parse (partial): the tail of a constant or field definition as the dumper writes it — the value
     followed by the annotation list, passed through the post-passes of DumpIDL *together* — is read back as
-    that value (`reread`) followed by that annotation list.
+    that value followed by that annotation list.
     Covered by theorem: constant values of all six kinds (nested), annotation lists, literals, numbers and their
     concatenation.  Covered by correspondence + oracle only: includes, namespaces, cpp_include, typedef, const,
     enum, struct/union/exception and service/function layouts, type expressions, comments. -/
 theorem dump_parse_partial (ff : Nat → Bytes) (pf : Bytes → Nat) (cv : CV) (l : List Ann)
     (hg : GoodCV ff pf cv) (hs : SafeCV ff cv) (hne : l ≠ []) (hwf : WFAnn l) (hok : AnnsOK l)
     (rest : Bytes) (f : Nat) (hf : cvSize cv ≤ f) :
-    ∃ r1, readCV pf f (finish cfg (printCV cfg ff cv ++ printAnnotation cfg l) ++ rest) = some (reread ff cv, r1)
+    ∃ r1, readCV pf f (finish cfg (printCV cfg ff cv ++ printAnnotation cfg l) ++ rest) = some (cv, r1)
       ∧ readAnnotations r1 = some (l, skipIndent rest) := by
   rw [show cfg = stdCfg from generated_cfg_is_std, finish_cv_anns ff cv l hs hok.safe hwf.2]
   refine ⟨finalAnn l ++ rest, ?_, readAnnotations_final l hne hwf hok.pairs rest⟩
@@ -152,7 +156,7 @@ theorem dump_parse_partial (ff : Nat → Bytes) (pf : Bytes → Nat) (cv : CV) (
     cases l with
     | nil => exact absurd rfl hne
     | cons a r => simp [Term]
-  rw [List.append_assoc, readCV_final ff pf cv hg _ ht f hf, skipIndent_finalAnn l hne]
+  rw [List.append_assoc, readCV_final ff pf cv hg _ ht f hf, skipIndent_finalAnn l hne, reread_id]
 
 /-- dump_accepted (partial): the dumped text of a good value is accepted by the reader model (no lexing
     failure, no ParseInt error).  Acceptance of whole files by the parser and by the semantic checker is
